@@ -182,7 +182,8 @@ class CSSMediaRule(cssrule.CSSRuleRules):
                 def atrule(expected, seq, token, tokenizer):
                     # TODO: get complete rule!
                     tokens = self._tokensupto2(tokenizer, token)
-                    atval = self._tokenvalue(token)
+                    # at-keywords are case-insensitive
+                    atval = self._normalize(self._tokenvalue(token))
                     factories = {
                         '@page': cssutils.css.CSSPageRule,
                         '@media': CSSMediaRule,
